@@ -60,6 +60,35 @@ fn check_built(input: &FstInput, rec: &mut Rec) -> CheckResult {
         vfail!("verify-built", "verify() fails on a freshly built FST: {:?}; keys {}", e, crate::oracle::keys_show(&input.pairs));
     }
     rec.class("built_fst_verified");
+    // "independent of how the data was chunked while being written": the
+    // same sequence streamed to sinks that accept a few bytes per call and
+    // interrupt now and then must carry the same (reference) checksum
+    let h = input.hash();
+    let cap = 1 + (h % 9) as usize;
+    let script: Vec<crate::sinks::Act> = (0..(h >> 8) % 12)
+        .map(|i| match (h >> (12 + 2 * i)) & 3 {
+            0 => crate::sinks::Act::Interrupted,
+            1 => crate::sinks::Act::AllButOne,
+            _ => crate::sinks::Act::Accept(usize::MAX),
+        })
+        .collect();
+    let sink = crate::sinks::ScriptSink::new(script, cap);
+    let mut bld = fst::raw::Builder::new_type(sink, input.ty).map_err(|e| Fail::new("io-error", format!("{:?}", e)))?;
+    let set = input.front.is_set();
+    for (k, v) in &input.pairs {
+        if set { bld.add(k) } else { bld.insert(k, *v) }.map_err(|e| Fail::new("io-error", format!("{:?}", e)))?;
+    }
+    let sb = bld.into_inner().map_err(|e| Fail::new("io-error", format!("{:?}", e)))?.data;
+    let sn = sb.len();
+    vensure!(sn >= 36, "too-short", "FST streamed to a short-write sink has {} bytes", sn);
+    let strailer = u32::from_le_bytes([sb[sn - 4], sb[sn - 3], sb[sn - 2], sb[sn - 1]]);
+    let swant = crcref::masked(&sb[..sn - 4]);
+    vensure!(strailer == swant, "trailer-chunked", "FST streamed to a sink accepting <= {} bytes per call: trailing 4 bytes are {:#010x} but the masked CRC-32C of the preceding bytes is {:#010x}; keys {}", cap, strailer, swant, crate::oracle::keys_show(&input.pairs));
+    let sf = fst::raw::Fst::new(&sb[..]).map_err(|e| Fail::new("open-failed", format!("{:?}", e)))?;
+    if let Err(e) = sf.verify() {
+        vfail!("verify-built-chunked", "verify() fails on an FST streamed to a sink accepting <= {} bytes per call: {:?}; keys {}", cap, e, crate::oracle::keys_show(&input.pairs));
+    }
+    rec.class("built_through_short_write_sink_verified");
     check_checksum_field(b, rec, &|| format!("keys {}", crate::oracle::keys_show(&input.pairs)))
 }
 
